@@ -640,3 +640,87 @@ def aliased_outputs(base_cases, quick):
         for which in ('first', 'last'):
             out.append(variant(c, 'one wire on two outputs (%s pair)' % which, xf_alias_outputs(which), 'aliased_outputs'))
     return out
+
+
+# ------------------------------------------------------------------------------------------------ generate - mutate - generate
+def _structural_scopes(p, top):
+    """the objects emitted as structural modules, top first"""
+    gen = p.VerilogGenerator(top)
+    out = []
+    def walk(o):
+        if o.isPrimitive() or gen.isInlinable(o) or gen.isProvidingBody(o): return
+        out.append(o)
+        for ch in o.children.values(): walk(ch)
+    walk(top)
+    return out
+
+
+def mut_tap(where):
+    """expose an internal wire of a structural scope (the top / the first child that has one) on a new output port"""
+    def m(p, top):
+        import py4hw.rtl_generation as R
+        scopes = _structural_scopes(p, top)
+        # a block that names its module itself (structureName) shares it with its siblings: tapping ONE instance would break that contract
+        scopes = scopes[:1] if where == 'top' else [o for o in scopes[1:] if not hasattr(o, 'structureName')]
+        for o in scopes:
+            loc = [w for w in R.collectLocalWires(o) if isinstance(w, p.Wire)]
+            if loc:
+                w = sorted(loc, key=lambda x: x.name)[0]
+                o.addOut('dbg_tap', w)
+                return 'tap %s of %s' % (w.name, o.name)
+        raise NotApplicable('no internal wire')
+    return m
+
+
+def mut_add_child(p, top):
+    """new blocks, a new local wire and a new output port in the top"""
+    src = top.inPorts[0].wire if top.inPorts else top.outPorts[0].wire
+    w = src.getWidth()
+    m = top.wire('extra_m', w); n = top.wire('extra_n', w)
+    p.Not(top, 'extra_g0', src, m); p.Add(top, 'extra_add', m, src, n)
+    top.addOut('extra_o', n)
+    return 'added Not + Add + port extra_o'
+
+
+def mut_rename(p, top):
+    """rename an internal wire of the first structural scope that has one"""
+    import py4hw.rtl_generation as R
+    for o in _structural_scopes(p, top):
+        loc = [w for w in R.collectLocalWires(o) if isinstance(w, p.Wire) and w.parent is o]
+        if loc:
+            w = sorted(loc, key=lambda x: x.name)[0]
+            w.rename(w.name + '_rn')
+            return 'renamed a wire of %s' % o.name
+    raise NotApplicable('no internal wire')
+
+
+MUTATIONS = [('tap@child', mut_tap('child')), ('tap@top', mut_tap('top')), ('add_child', mut_add_child), ('rename_wire', mut_rename)]
+
+
+def regenerate(base_cases, quick):
+    """HISTORY: generate the hierarchy, change the live design (MUTATIONS), generate again with the same or with a fresh
+    VerilogGenerator: the second text must be well formed (it is decided like every other text).  Nothing of the first
+    generation (name tables, emitted-module lists) may leak into the second."""
+    out = []
+    seen = {}
+    k = 0
+    for c in base_cases:
+        if c.cls in ('adversarial', 'clock', 'generator_reuse', 'behavioural_names', 'own_domain', 'aliased_outputs'): continue
+        seen[c.cls] = seen.get(c.cls, 0) + 1
+        if seen[c.cls] > (12 if c.cls == 'random_netlist' else (1 if quick else 3)): continue
+        muts = MUTATIONS if (c.cls in ('random_netlist', 'reuse') or not quick) else [MUTATIONS[k % 4], MUTATIONS[(k + 1) % 4]]
+        for name, mut in muts:
+            k += 1
+            fresh = (k % 2 == 0)
+            def emit(p, top, mut=mut, fresh=fresh):
+                with quiet():
+                    g = p.VerilogGenerator(top)
+                    g.getVerilogForHierarchy()
+                    mut(p, top)
+                    g2 = p.VerilogGenerator(top) if fresh else g
+                    return g2.getVerilogForHierarchy()
+            params = dict(c.params); params.update(base=c.cls, mutation=name, generator='fresh' if fresh else 'same')
+            v = Case('%s<generate, %s, generate with %s generator>' % (c.id, name, 'a fresh' if fresh else 'the same'), 'regenerate', params, c.build)
+            v.emit = emit
+            out.append(v)
+    return out
